@@ -253,6 +253,29 @@ Qed.
 
 (* ---- every step preserves the invariant ---------------------------------- *)
 
+(* a step that only moves the thread and adds nothing to the log *)
+Lemma quiet_inv : forall g ls i t g' p,
+  Inv g ls -> nth_error ls i = Some t ->
+  fetching_pc (t_pc t) = false ->
+  held g' = held g \/ (exists m, held g' = (m, i) :: held g /\ is_held m (held g) = false) ->
+  updated g' = updated g -> log g' = log g ->
+  tinv g' i (set_pc p t) ->
+  (forall j tj, j <> i -> nth_error ls j = Some tj -> tinv g j tj -> tinv g' j tj) ->
+  Inv g' (upd i (set_pc p t) ls).
+Proof.
+  intros g ls i t g' p HI Hnth Hnf Hh Hu Hl Hnew Hframe.
+  apply (inv_build g ls i t _ _ HI Hnth); auto.
+  - destruct Hh as [-> | (m & -> & Hm)]; [apply (inv_nodup _ _ HI) |].
+    cbn. constructor; [apply is_held_false; auto | apply (inv_nodup _ _ HI)].
+  - rewrite Hu, Hl. apply (inv_upd _ _ HI).
+  - rewrite Hl. apply (inv_rets _ _ HI).
+  - apply (starts_keep g ls i t); auto.
+    + apply (inv_starts _ _ HI).
+    + intros k. rewrite Hl. reflexivity.
+    + intros k. rewrite Hu. auto.
+    + rewrite Hnf. discriminate.
+Qed.
+
 Lemma step_inv : forall i g ls t g' t',
   Inv g ls -> nth_error ls i = Some t -> step v dub i g t = (g', t') -> Inv g' (upd i t' ls).
 Proof.
@@ -260,33 +283,33 @@ Proof.
   destruct (t_todo t) as [| k rest] eqn:Ht.
   { inversion Hstep; subst. rewrite upd_same; auto. }
   pose proof (inv_thr _ _ HI _ _ Hnth) as Hti. unfold tinv in Hti. rewrite Ht in Hti.
-  assert (Same : forall p, fetching_pc (t_pc t) = false ->
-            tinv g i (set_pc p t) -> Inv g (upd i (set_pc p t) ls)).
-  { intros p Hnf Hnew. apply (inv_build g ls i t); auto; try apply HI.
-    apply (starts_keep g ls i t); auto. apply (inv_starts _ _ HI). rewrite Hnf. discriminate. }
   destruct (t_pc t) eqn:Hpc.
   - (* PStart *)
     destruct (memb k (updated g)) eqn:Hk.
     + pose proof (return_inv g ls i t k rest None HI Hnth Ht Hk) as R.
       rewrite Hstep in R. cbn [fst snd] in R. apply R; [rewrite Hpc; reflexivity | discriminate].
-    + inversion Hstep; subst. apply Same; [reflexivity |].
-      unfold tinv, set_pc. cbn. rewrite Ht. exact I.
+    + inversion Hstep; subst g' t'; clear Hstep.
+      apply (quiet_inv g ls i t); auto.
+      * rewrite Hpc; reflexivity.
+      * unfold tinv, set_pc. cbn. rewrite Ht. exact I.
   - (* PChecked1 *)
     destruct (rlookup k (running g)) as [m |] eqn:Hl.
-    + inversion Hstep; subst. apply Same; [reflexivity |].
-      unfold tinv, set_pc. cbn. rewrite Ht. auto.
     + inversion Hstep; subst g' t'; clear Hstep.
-      apply (inv_build g ls i t); auto; try apply HI.
-      * apply (starts_keep g ls i t); auto. apply (inv_starts _ _ HI). rewrite Hpc. discriminate.
+      apply (quiet_inv g ls i t); auto.
+      * rewrite Hpc; reflexivity.
+      * unfold tinv, set_pc. cbn. rewrite Ht. auto.
+    + inversion Hstep; subst g' t'; clear Hstep.
+      apply (quiet_inv g ls i t); auto.
+      * rewrite Hpc; reflexivity.
       * unfold tinv, set_pc. cbn. rewrite Ht. intros _. rewrite N.eqb_refl. reflexivity.
       * intros j tj Hne Hj Htj. apply tinv_alloc; auto.
   - (* PGot *)
     destruct (is_held m (held g)) eqn:Hh.
     + inversion Hstep; subst. rewrite upd_same; auto.
     + inversion Hstep; subst g' t'; clear Hstep.
-      apply (inv_build g ls i t); auto; try apply HI.
-      * cbn. constructor; [apply is_held_false; auto | apply (inv_nodup _ _ HI)].
-      * apply (starts_keep g ls i t); auto. apply (inv_starts _ _ HI). rewrite Hpc. discriminate.
+      apply (quiet_inv g ls i t); auto.
+      * rewrite Hpc; reflexivity.
+      * right. exists m. auto.
       * unfold tinv, set_pc. cbn. rewrite Ht. split; auto.
       * intros j tj Hne Hj Htj. apply tinv_lock; auto.
   - (* PLocked *)
@@ -294,15 +317,16 @@ Proof.
     destruct (memb k (updated g)) eqn:Hk.
     + destruct (is_rrdp v).
       * inversion Hstep; subst g' t'; clear Hstep.
-        apply (inv_build g ls i t); auto; try apply HI.
-        -- apply (starts_keep g ls i t); auto. apply (inv_starts _ _ HI). rewrite Hpc. discriminate.
+        apply (quiet_inv g ls i t); auto.
+        -- rewrite Hpc; reflexivity.
         -- unfold tinv, set_pc. cbn. rewrite Ht. auto.
-        -- intros j tj Hne Hj Htj. apply tinv_readers; auto.
       * pose proof (return_inv g ls i t k rest (Some m) HI Hnth Ht Hk) as R.
         rewrite Hstep in R. cbn [fst snd] in R. apply R; [rewrite Hpc; reflexivity |].
         intros m0 E. inversion E; subst. exact Hin.
-    + inversion Hstep; subst. apply Same; [reflexivity |].
-      unfold tinv, set_pc. cbn. rewrite Ht. auto.
+    + inversion Hstep; subst g' t'; clear Hstep.
+      apply (quiet_inv g ls i t); auto.
+      * rewrite Hpc; reflexivity.
+      * unfold tinv, set_pc. cbn. rewrite Ht. auto.
   - (* PUnchecked2 *)
     destruct Hti as (Hin & Hk & Hrun).
     destruct (dub k) eqn:Hd.
@@ -318,7 +342,7 @@ Proof.
         { eapply (section_unique g ls i0 i t0 t k r0 rest); eauto.
           apply fetching_in_section; auto. rewrite Hpc; reflexivity. }
         subst i0. assert (t0 = t) by congruence. subst t0. rewrite Hpc in Hf0. discriminate. }
-      apply (inv_build g ls i t); auto.
+      apply (inv_build g ls i t _ _ HI Hnth).
       * apply (inv_nodup _ _ HI).
       * apply upd_ok_log. apply (inv_upd _ _ HI).
       * cbn [add_log log rets_ok]. apply (inv_rets _ _ HI).
@@ -334,12 +358,11 @@ Proof.
   - (* PFetching *)
     destruct Hti as (Hin & Hk & Hrun).
     inversion Hstep; subst g' t'; clear Hstep.
-    apply (inv_build g ls i t); auto.
+    apply (inv_build g ls i t _ _ HI Hnth).
     + apply (inv_nodup _ _ HI).
     + apply upd_ok_log. apply (inv_upd _ _ HI).
     + cbn [add_log log rets_ok]. apply (inv_rets _ _ HI).
     + apply (starts_keep g ls i t); auto. apply (inv_starts _ _ HI).
-      intros _. left. cbn. auto.
     + unfold tinv, set_pc. cbn. rewrite Ht. repeat split; auto. rewrite N.eqb_refl. reflexivity.
     + intros j tj Hne Hj Htj. apply tinv_log; auto.
   - (* PFetched *)
@@ -349,8 +372,8 @@ Proof.
   - (* PInserted *)
     destruct Hti as (Hin & Hk). rewrite Hv in Hstep.
     inversion Hstep; subst g' t'; clear Hstep.
-    apply (inv_build g ls i t); auto; try apply HI.
-    + apply (starts_keep g ls i t); auto. apply (inv_starts _ _ HI). rewrite Hpc. discriminate.
+    apply (quiet_inv g ls i t); auto.
+    + rewrite Hpc; reflexivity.
     + unfold tinv, set_pc. cbn. rewrite Ht. auto.
     + intros j tj Hne Hj Htj. apply tinv_remove; auto.
   - (* PRemoved *)
@@ -361,15 +384,18 @@ Proof.
   - (* PFound2 *)
     destruct Hti as (Hin & Hk).
     inversion Hstep; subst g' t'; clear Hstep.
-    apply (inv_build g ls i t); auto; try apply HI.
-    + apply (starts_keep g ls i t); auto. apply (inv_starts _ _ HI). rewrite Hpc. discriminate.
+    apply (quiet_inv g ls i t); auto.
+    + rewrite Hpc; reflexivity.
     + unfold tinv, set_pc. cbn. rewrite Ht. auto.
     + intros j tj Hne Hj Htj. apply tinv_remove; auto.
   - (* PRemoved2 *)
     destruct Hti as (Hin & Hk).
     set (g1 := with_readers (drop_reader i (readers g)) g) in *.
     assert (HI1 : Inv g1 ls).
-    { constructor; try apply HI.
+    { constructor.
+      - apply (inv_nodup _ _ HI).
+      - apply (inv_upd _ _ HI).
+      - apply (inv_rets _ _ HI).
       - intros k0. destruct (inv_starts _ _ HI k0). split; auto.
       - intros j tj Hj. apply tinv_readers. apply (inv_thr _ _ HI); auto. }
     pose proof (return_inv g1 ls i t k rest (Some m) HI1 Hnth Ht Hk) as R.
